@@ -21,7 +21,7 @@ def gen(seed, tier):
     n_ctor = 60 if tier == "quick" else 1500
     for ctor in CTORS:
         for i in range(n_ctor):
-            d = rng.choice([1, 2, 2, 3, 3])
+            d = rng.choice([1, 2, 2, 3, 3, 4] if ctor in ("swizzle", "swap", "flatten", "unflatten", "merge") else [1, 2, 2, 3, 3])
             dflt = rng.choice([0, 0, 7])
             n = rng.choice([2, 3, 4])
             # every third tree is rich in empty sub-fibers (several of them next to non-empty ones)
@@ -135,6 +135,14 @@ def _transform(case, t, c, rng, ids, d):
     if c == "swizzle":
         perm = ids[:]
         rng.shuffle(perm)
+        if d >= 3 and rng.random() < 0.5:
+            # only the upper ranks permuted, the trailing ones stay in place (their fibers need not be rebuilt —
+            # and must still not be taken from the source)
+            keep = rng.randrange(1, d - 1)
+            head = ids[:d - keep]
+            while head == ids[:d - keep]:
+                rng.shuffle(head)
+            perm = head + ids[d - keep:]
         return t.swizzleRanks(perm)
     if c == "swap":
         return t.swapRanks(depth=depth)
